@@ -1291,6 +1291,21 @@ impl<E: El> Rest<E> {
                             }
                         }
                         let up_to_date = s.next_seq == total && s.mid == 0;
+                        // The batch agreed with a *prefix* of the log. That may be a
+                        // coincidence (a stream that compacts its batches can deliver
+                        // `[Clear]` for the messages `[Clear]`, `[Clear]`): what C06 and
+                        // C07 say is about the state the item leaves behind, so if that
+                        // state is fine the position assumption was wrong, not the stream.
+                        let rep_now = kids(&s.replica);
+                        if (s.mid != 0 && prop == "C07" && msgs[start_seq..total].iter().any(|m| m.post == rep_now)) || (!up_to_date && prop == "C06" && &rep_now == contents) {
+                            s.lenient = true;
+                            if prop == "C06" {
+                                s.sync_seq = total;
+                            }
+                            s.mid = 0;
+                            st.hit("subscriber_switched_to_state_based_checking");
+                            return Ok(Polled::Item);
+                        }
                         if s.mid != 0 && prop == "C07" {
                             return Err(viol(
                                 "C07",
